@@ -52,6 +52,66 @@ theorem conservation (phi : List K) (th : List K) (hth : th.length = phi.length 
     obtain ⟨b, hb, rfl⟩ := List.mem_map.mp h3.2
     exact ⟨a, b, rfl, hspan a (List.dropLast_subset _ ha), hspan b (List.mem_of_mem_tail hb)⟩
 
+/-- a cell takes part in the transform when at least one of its bounds is known -/
+def hasBound (c : K × Option K × Option K) : Bool := c.2.1.isSome || c.2.2.isSome
+
+theorem rows_sum_eq_missing (cells : List (K × Option K × Option K)) (edges : List K) (hinc : Inc edges)
+    (hlen : 2 ≤ edges.length)
+    (hc : ∀ c ∈ cells, ∀ t, (c.2.1 = some t ∨ c.2.2 = some t) →
+      edges.headD 0 ≤ t ∧ t ≤ edges.getLastD 0) :
+    (cells.map (fun c => (cellRow c.1 (cellInterval c.2.1 c.2.2) edges).sum)).sum =
+      ((cells.filter hasBound).map (·.1)).sum := by
+  induction cells with
+  | nil => rfl
+  | cons c cs ih =>
+    have ih' := ih (fun c' hc' => hc c' (by simp [hc']))
+    have hcc := hc c (by simp)
+    obtain ⟨p, o1, o2⟩ := c
+    simp only [List.map_cons, List.sum_cons, List.filter_cons, hasBound]
+    rw [ih']
+    cases o1 with
+    | none =>
+      cases o2 with
+      | none => simp [cellInterval, cellRow_none_sum]
+      | some b =>
+        have := half_cell_row_sum p b none (some b) (Or.inr ⟨rfl, rfl⟩) edges hinc hlen (hcc b (Or.inr rfl))
+        simp [this]
+    | some a =>
+      cases o2 with
+      | none =>
+        have := half_cell_row_sum p a (some a) none (Or.inl ⟨rfl, rfl⟩) edges hinc hlen (hcc a (Or.inl rfl))
+        simp [this]
+      | some b =>
+        have := finite_cell_row_sum p a b edges hinc hlen (hcc a (Or.inl rfl)) (hcc b (Or.inr rfl))
+        simp [this]
+
+/-- **Conservation with missing target_data.**  Where target_data is NaN on some cell bounds
+    (land below the sea floor, masked regions), exactly the cells with no known bound drop out;
+    every other cell - a cell with one known bound counts as a point at that bound - passes all
+    of its content to the bins, for every column length and every pattern of missing bounds. -/
+theorem conservation_with_missing (phi : List K) (th : List (Option K)) (edges : List K)
+    (hinc : Inc edges) (hlen : 2 ≤ edges.length)
+    (hspan : ∀ t, some t ∈ th → edges.headD 0 ≤ t ∧ t ≤ edges.getLastD 0) :
+    (consKernel phi th.dropLast th.tail edges).sum =
+      (((List.zip phi (List.zip th.dropLast th.tail)).filter hasBound).map (·.1)).sum := by
+  unfold consKernel
+  have hz : (List.replicate (edges.length - 1) (0 : K)).length = edges.length - 1 := by simp
+  have h := (fold_rows_sum (List.zip phi (List.zip th.dropLast th.tail)) edges
+    (List.replicate (edges.length - 1) 0) hz).1
+  rw [h]
+  have hzero : (List.replicate (edges.length - 1) (0 : K)).sum = 0 := by simp
+  rw [hzero, zero_add]
+  apply rows_sum_eq_missing _ edges hinc hlen
+  intro c hc t ht
+  obtain ⟨p, o1, o2⟩ := c
+  have h2 := (List.of_mem_zip hc).2
+  have h3 := List.of_mem_zip h2
+  rcases ht with ht | ht
+  · simp only at ht; subst ht
+    exact hspan t (List.dropLast_subset _ h3.1)
+  · simp only at ht; subst ht
+    exact hspan t (List.mem_of_mem_tail h3.2)
+
 /-- **Merging adjacent bins sums their contents** (per cell; the kernel is the sum over cells). -/
 theorem merge_adjacent_bins (phi lo hi a b c : K) (last : Bool) (hlh : lo ≤ hi)
     (hab : a < b) (hbc : b < c) :
